@@ -135,7 +135,7 @@ def scenario(max_h: int = 8) -> Any:
 
 def parts(tier: str) -> List[Part]:
     if tier == "thorough":
-        return [Part("runs", "given", shards=16, examples=4000, strategy=lambda: scenario(30), soft_deadline_s=2400)]
+        return [Part("runs", "given", shards=16, examples=8000, strategy=lambda: scenario(30), soft_deadline_s=3600)]
     return [Part("runs", "given", shards=12, examples=300, strategy=scenario, soft_deadline_s=150)]
 
 
